@@ -132,8 +132,9 @@ impl BuildJob<'_> {
                     .stamp
                     .as_ref()
                     // No recorded stamp (redo-stamp marked a first build generated
-                    // and the build never finished): nothing to compare with.
-                    .map_or(false, |s| Stamp::detect_override(s, &newstamp)))
+                    // and the build never finished): we cannot tell whether the
+                    // file that is there now is ours, so keep our hands off it.
+                    .map_or(true, |s| Stamp::detect_override(s, &newstamp)))
         {
             let nice_t = nice(ptx.state().env(), &t).map_err(RedoError::opaque_error)?;
             state::warn_override(&nice_t);
